@@ -645,7 +645,7 @@ type vfGridOpts struct {
 	// counted (class) and the case dropped instead of being judged (judging it is C10's business)
 	OnlySuccess bool
 	Label       string
-	Note        string // appended to the description of the case in messages
+	Note        string        // appended to the description of the case in messages
 	SCfgMod     func(*Config) // edits the server config built from the choice (compliant server behaviours)
 }
 
